@@ -388,6 +388,11 @@ fn gen_def(rng: &mut Rng) -> String {
     if rng.chance(0.05) {
         return (*rng.pick(&["stack push=1", "push v_1", "pop v_1", "stack pop=1", "pipeline", "stack", "push", "pop"])).to_string();
     }
+    // pipelines using the stack, with and without underflow: outside the algebra, but an
+    // operator like any other as far as immutability goes
+    if rng.chance(0.04) {
+        return (*rng.pick(&["stack push=1 | stack pop=1,2", "addone | stack pop=1", "stack push=1,2 | addone | stack pop=2,1", "stack push=3 | helmert z=5 | stack pop=3", "stack push=1 | stack flip=1,2"])).to_string();
+    }
     // names are case sensitive, also when the definition is written in PROJ syntax
     // (which only the Plain context translates)
     if rng.chance(0.05) {
